@@ -311,7 +311,7 @@ func (fc *FuncCtx) env(st, old *State) *Env {
 		if sv, ok := fc.paramSV[base]; ok {
 			return sv, true, nil
 		}
-		return SV{T: fc.v.tm.ZeroOf(fc.v.tm.SortOf(gt)), GoT: gt}, true, nil
+		return SV{T: fc.v.tm.ZeroOf(fc.cellSort(a)), GoT: gt}, true, nil
 	}
 	return e
 }
@@ -943,7 +943,7 @@ func (fc *FuncCtx) loopHead(fr *Frame, ci *cfgInfo, h *ssa.BasicBlock, st *State
 		if name == "" {
 			name = a.Name()
 		}
-		t := c.Fresh(tag+"."+name, v.tm.SortOf(gt))
+		t := c.Fresh(tag+"."+name, ns.cells[a].Sort)
 		ns.cells[a] = t
 		v.assumeTyped(ns, t, gt, nil)
 	}
@@ -1137,7 +1137,7 @@ func (fc *FuncCtx) scanCall(ci ssa.CallInstruction, fr *Frame, ws *writeSet, dep
 		fc.scanWrites(clo.Fn.Blocks, nfr, ws, depth+1)
 		return
 	}
-	spec := v.specs[key]
+	spec := v.specFor(key)
 	if spec != nil && spec.Inline && callee != nil && len(callee.Blocks) > 0 {
 		nfr := &Frame{fn: callee, vals: map[ssa.Value]Val{}, free: map[*ssa.FreeVar]Val{}, fc: fc}
 		fc.scanWrites(callee.Blocks, nfr, ws, depth+1)
@@ -1263,6 +1263,81 @@ func (fc *FuncCtx) reachableHeaps(t types.Type) []string {
 }
 
 // ------------------------------------------------------------ cells vs heap objects
+
+// cellSort is the sort of the value held by a local variable: the sort of its Go type, except for variables
+// listed in a `rawslice` clause (their type is mapped to an abstract list sort, but the code builds the value
+// element by element, so it need not satisfy the representation invariant the abstraction assumes).
+func (fc *FuncCtx) cellSort(a *ssa.Alloc) *Sort {
+	elem := a.Type().(*types.Pointer).Elem()
+	if fc.spec != nil && fc.spec.RawSlice[a.Comment] && a.Parent() == fc.fn {
+		if sl, ok := elem.Underlying().(*types.Slice); ok {
+			if at, abs := fc.v.tm.abstract[typeKey(elem)]; abs && at.SeqLen != "" {
+				return fc.v.tm.RawSliceSort(sl)
+			}
+		}
+		unsupported("rawslice %s: not a local variable of an abstract list type with a sequence view", a.Comment)
+	}
+	return fc.v.tm.SortOf(elem)
+}
+
+// absToRaw converts a value of an abstract list sort to the concrete slice with the same sequence view.
+func (fc *FuncCtx) absToRaw(st *State, x *Term, gt types.Type, raw *Sort) *Term {
+	v := fc.v
+	c := v.c
+	at, ok := v.tm.abstract[typeKey(gt)]
+	if !ok || at.SeqLen == "" || at.Sort != x.Sort {
+		unsupported("cannot convert a value of sort %s (%s) to a concrete slice", x.Sort.Name, gt)
+	}
+	r := c.Fresh("raw_"+sanitize(at.Sort.Name), raw)
+	n := c.App(at.SeqLen, SInt, x)
+	st.assume(c, c.Cmp(">=", n, c.Int(0)))
+	st.assume(c, c.Eq(c.FieldOf(r, 1), n))
+	i := c.BoundVar("k", SInt)
+	es := raw.Fields[0].Sort.Elem
+	st.assume(c, c.Quant(true, []*Term{i}, c.Implies(c.And(c.Cmp("<=", c.Int(0), i), c.Cmp("<", i, n)),
+		c.Eq(c.Select(c.FieldOf(r, 0), i), c.App(at.SeqAt, es, x, i)))))
+	return r
+}
+
+// specFor returns the contract used for calls to key; `sameas` contracts (interface methods whose contract is
+// that of the implementation under verification) are resolved here.
+func (v *Verifier) specFor(key string) *FuncSpec {
+	spec := v.specs[key]
+	if spec == nil || spec.SameAs == "" {
+		return spec
+	}
+	if r, ok := v.sameAsCache[key]; ok {
+		return r
+	}
+	target := v.specs[spec.SameAs]
+	if target == nil {
+		unsupported("%s: sameas %s: no such contract", key, spec.SameAs)
+	}
+	if target.SameAs != "" || target.Inline || target.Opaque {
+		unsupported("%s: sameas %s: target must be a plain contract", key, spec.SameAs)
+	}
+	tf, err := v.lookupFunc(spec.SameAs)
+	if err != nil {
+		unsupported("%s: sameas: %v", key, err)
+	}
+	cp := *target
+	cp.Key = key
+	cp.SameAs = ""
+	cp.Trusted = false
+	cp.Lib = spec.Lib
+	names := target.ParamNames
+	if len(names) == 0 {
+		names, _ = sigParams(tf.Type().(*types.Signature))
+	}
+	cp.ParamNames = names
+	if v.sameAsCache == nil {
+		v.sameAsCache = map[string]*FuncSpec{}
+	}
+	v.sameAsCache[key] = &cp
+	v.sameAsUsed[key] = spec.SameAs
+	v.notes[fmt.Sprintf("%s: calls use the contract of %s (dynamic dispatch is assumed to resolve to it)", key, spec.SameAs)] = true
+	return &cp
+}
 
 func (fc *FuncCtx) isCell(a *ssa.Alloc) bool {
 	if r, ok := fc.cellClass[a]; ok {
